@@ -101,3 +101,27 @@ Definition reduced_alphabet : list token_type :=
    TT_Reapply; TT_Apply; TT_StartSideEffect; TT_EndSideEffect].
 
 Definition lit_all (_ : nat) : bool := true.
+
+(* the ten token classes that produce bodies, groups and loops *)
+Definition small_alphabet : list token_type :=
+  [TT_Number; TT_PlusSign; TT_StartGroup; TT_EndGroup; TT_StartExpression; TT_EndExpression;
+   TT_JumpIfTrue; TT_ElseJump; TT_And; TT_Reapply].
+
+(* every sequence of length [n] over [alpha], without materialising the list *)
+Fixpoint all_seqs_ok {A} (f : list A -> bool) (alpha : list A) (n : nat) (prefix : list A) : bool :=
+  match n with
+  | O => f (rev prefix)
+  | S k => forallb (fun a => all_seqs_ok f alpha k (a :: prefix)) alpha
+  end.
+
+Lemma all_seqs_ok_spec : forall A (f : list A -> bool) alpha n prefix,
+  all_seqs_ok f alpha n prefix = true ->
+  forall l, length l = n -> (forall x, In x l -> In x alpha) -> f (rev prefix ++ l) = true.
+Proof.
+  intros A f alpha n. induction n as [|n IH]; intros prefix H l Hl Hin.
+  - destruct l; [|discriminate]. rewrite app_nil_r. exact H.
+  - destruct l as [|a l]; [discriminate|]. cbn [all_seqs_ok] in H. rewrite forallb_forall in H.
+    specialize (H a (Hin a (or_introl eq_refl))).
+    specialize (IH (a :: prefix) H l). cbn [rev] in IH. rewrite <- app_assoc in IH. cbn [app] in IH.
+    apply IH; [cbn in Hl; inversion Hl; reflexivity | intros x Hx; apply Hin; right; exact Hx].
+Qed.
